@@ -27,6 +27,9 @@ use std::sync::Arc;
 
 type T = Arc<Type>;
 
+/// `--arm-drop`: emit C03's arm-deletion mutants instead of C06's non-exhaustive-match faults.
+static ARM_DROP: std::sync::atomic::AtomicBool = std::sync::atomic::AtomicBool::new(false);
+
 /// The checker runs its modules on rayon worker threads: the panic message is kept in a global.
 static LAST_PANIC: std::sync::Mutex<Option<String>> = std::sync::Mutex::new(None);
 
@@ -1222,6 +1225,35 @@ impl<'a> Collector<'a> {
     if self.toks[ma] != format!("Match/{n}(") {
       return;
     }
+    // C03's operator (not a fault by construction, never part of C06's fault model): any one arm of
+    // any match is deleted; the checker either rejects the mutant or the remaining arms must cover
+    // every value that reaches the match at run time.
+    if ARM_DROP.load(std::sync::atomic::Ordering::Relaxed) {
+      for i in 0..n {
+        let c = &m.cases[i];
+        let (from, to) = if i + 1 < n {
+          (self.text.off(c.loc.start), self.text.off(m.cases[i + 1].loc.start))
+        } else {
+          (self.text.off(m.cases[i - 1].loc.end), self.text.off(c.loc.end))
+        };
+        if let (Some((ca, cb)), Some(from), Some(to)) = (self.range(&c.loc, "arm"), from, to) {
+          if from < to {
+            self.push(
+              "arm-drop",
+              if i + 1 < n { "arm" } else { "last-arm" },
+              from,
+              to,
+              String::new(),
+              vec![
+                Splice { at: ca, del: cb - ca, ins: vec![] },
+                Splice { at: ma, del: 1, ins: vec![format!("Match/{}(", n - 1)] },
+              ],
+            );
+          }
+        }
+      }
+      return;
+    }
     // all arms are plain variant patterns with pairwise distinct tags
     let mut tags = HashSet::new();
     for c in &m.cases {
@@ -1772,6 +1804,7 @@ pub fn main(args: &[String]) {
   let shard: usize = arg_or(args, "--shard", "0").parse().unwrap();
   let shard_of: usize = arg_or(args, "--of", "1").parse().unwrap();
   let show = flag(args, "--show");
+  ARM_DROP.store(flag(args, "--arm-drop"), std::sync::atomic::Ordering::Relaxed);
   let avoid: HashSet<String> = arg_or(args, "--avoid", "").split(',').filter(|s| !s.is_empty()).map(|s| s.to_string()).collect();
   let only: HashSet<String> = arg_or(args, "--only", "").split(',').filter(|s| !s.is_empty()).map(|s| s.to_string()).collect();
   let mut out = arg(args, "--out").map(|p| std::io::BufWriter::new(std::fs::File::create(p).unwrap()));
